@@ -1,7 +1,8 @@
 /*
  * libc_fmt.h - contract model of snprintf / printf for exactly the directives binson_parser.c uses
  * (literal text, %s, %*.*s incl. stop at NUL, %02x, %ld / %lld (PRId64), %lf). CBMC builds only; native
- * replays use the real glibc.
+ * replays use the real glibc. The calls reach these functions through model/fmt_promote.h, which applies the
+ * default argument promotions CBMC leaves out.
  *
  *  - return value = full length, whatever `size` is
  *  - at most `size` bytes are stored including the terminating NUL; nothing is stored when size == 0
@@ -142,10 +143,13 @@ static inline void fmt_run(struct fmt_sink *k, const char *fmt, va_list ap)
             }
         } else if (c == '0' && fmt[i + 1] == '2' && fmt[i + 2] == 'x') {
             i += 2;
-            unsigned v = (unsigned) va_arg(ap, unsigned char);   /* no default promotion under CBMC */
-            unsigned hi = (v >> 4) & 15u, lo = v & 15u;
-            fmt_emit(k, (char) (hi < 10 ? '0' + hi : 'a' + (hi - 10)));
-            fmt_emit(k, (char) (lo < 10 ? '0' + lo : 'a' + (lo - 10)));
+            /* the argument arrives promoted to int (model/fmt_promote.h); %x converts it to unsigned int:
+               at least two digits, up to eight when a negative (sign-extended) value was passed */
+            unsigned v = (unsigned) va_arg(ap, int);
+            for (int sh = 28; sh >= 0; sh -= 4) {
+                unsigned dgt = (v >> (unsigned) sh) & 15u;
+                if (sh <= 4 || (v >> (unsigned) sh) != 0) fmt_emit(k, (char) (dgt < 10 ? '0' + dgt : 'a' + (dgt - 10)));
+            }
         } else if (c == 'l' && fmt[i + 1] == 'd') {
             i += 1;
             int64_t v = (int64_t) va_arg(ap, long);
@@ -170,7 +174,7 @@ static inline void fmt_run(struct fmt_sink *k, const char *fmt, va_list ap)
     }
 }
 
-int snprintf(char *s, size_t size, const char *fmt, ...)
+int verif_snprintf(char *s, size_t size, const char *fmt, ...)
 {
     struct fmt_sink k;
     k.s = s; k.size = size; k.count = 0; k.to_stdout = false;
@@ -182,7 +186,7 @@ int snprintf(char *s, size_t size, const char *fmt, ...)
     return (int) k.count;
 }
 
-int printf(const char *fmt, ...)
+int verif_printf(const char *fmt, ...)
 {
     struct fmt_sink k;
     k.s = 0; k.size = 0; k.count = 0; k.to_stdout = true;
